@@ -1,6 +1,8 @@
 package props
 
 import (
+	"verif/lib/schemagen"
+	"verif/lib/typedmon"
 	"fmt"
 	"math"
 
@@ -225,6 +227,9 @@ func (c01) RunCase(c *fw.Ctx, rng *fw.RNG, batch, i int) {
 		}
 	}
 	nodes = append(nodes, built{"foreign", fnode.New(v)})
+	if i%8 == 3 {
+		c01Typed(c, rng)
+	}
 
 	// deep equality and copy agree with equality of the abstract values
 	if hasNaN(v) {
@@ -285,6 +290,30 @@ func (c01) RunCase(c *fw.Ctx, rng *fw.RNG, batch, i int) {
 		c.Count("readout_events", ro.Events)
 		if !model.Equal(ro.Val, v) {
 			c.Deviate("C01:copy-differs", fmt.Sprintf("Copy(%s) reads back as %s, source value %s", src.label, ro.Val.Dump(), v.Dump()))
+		}
+	}
+}
+
+// c01Typed: the typed implementations within their schema's value space. C08 compares what the two views
+// contain; here the full read-out monitor runs on typed nodes and their representations with the
+// kind-inappropriate accessor probes on (bindnode; the checked-in and freshly generated code get the same
+// monitor in C12's targets and inside C13's driver).
+func c01Typed(c *fw.Ctx, rng *fw.RNG) {
+	ts := schemagen.Gen(rng, schemagen.Opts{Types: 3 + rng.Intn(4)})
+	lib, err := schemagen.ToLibrary(ts)
+	if err != nil {
+		c.Inconclusive("library rejects type system: " + err.Error())
+		return
+	}
+	eng := newBindEngine(lib)
+	for _, t := range ts.Types {
+		if t.Name[0] != 'T' {
+			continue
+		}
+		for k := 0; k < 3; k++ {
+			tv := schemagen.GenValue(rng, ts, t, 0)
+			c.Count("typed_values", 1)
+			typedmon.CheckWrongKind(c, eng, ts, t, tv)
 		}
 	}
 }
